@@ -112,6 +112,9 @@ for k in range(N):
     c["q_om"] = Quaternion.from_matrix(om).data[0].tolist()
     c["q_eu"] = Quaternion.from_euler(eu).data[0].tolist()
     c["q_ho"] = Quaternion.from_homochoric(ho).data[0].tolist()
+    ro3_all = Q.to_rodrigues().data[0]
+    c["ro3"] = ro3_all.tolist()
+    c["q_r3"] = Quaternion.from_rodrigues(ro3_all).data[0].tolist()
     cases.append(c)
     rep = {"q": q, "stratum": name}
     # classes used in failure signatures: computed from q itself (not from the generator's stratum)
